@@ -76,7 +76,39 @@ def leaf_defs(h, v, depth=0, seen=None):
     return out
 
 
+def m0_result_is_fresh(prog, ctx, rule="M0"):
+    """M0: the merged object is a new one: `*merged_file` receives a fresh allocation (or NULL), never one of the two inputs - the
+    callers release or keep using their inputs independently of the result (merge_econf_files() frees each parsed drop-in right after
+    merging it)."""
+    m = prog.fn(MERGE)
+    ctx.touch(m)
+    out = m.params[0]["name"]
+    ins = [m.params[1]["name"], m.params[2]["name"]]
+    sts = [(st, rhs) for lhs, rhs, st, kind in query.stores(m) if kind == "=" and render(lhs) == "*" + out and rhs is not None]
+    if not sts:
+        ctx.inconclusive(rule, "the merge result is a new object", m.where, "no store to *%s" % out)
+        return
+    for st, rhs in sts:
+        r = rhs.strip()
+        if rhs.is_null_const():
+            continue
+        srcs = [r]
+        if r.k == "DeclRefExpr" and r.j.get("dk") == "local":
+            srcs = [d for l9, d, s9 in m.assignments() if (l9["name"] if isinstance(l9, dict) else render(l9)) == r.j["name"] and d is not None]
+        bad = [x for x in srcs if any(re.search(r"(?<![\w>.])%s(?![\w])" % re.escape(p9), render(x)) for p9 in ins)]
+        fresh = [x for x in srcs if x.strip().k == "CallExpr" and x.strip().j.get("callee") in ("calloc", "malloc")]
+        if bad:
+            ctx.fail(rule, "the merge result is a new object", st.where,
+                     "`%s`: one of the inputs is handed out as the result - the caller of the layered read frees that input right after the merge "
+                     "(on_merge_delete), every later getter on the result reads freed memory" % render(st)[:70], key="result-is-input")
+        elif fresh and len(fresh) == len(srcs):
+            ctx.ok(rule, "the merge result is a new object", st.where, render(st)[:70])
+        else:
+            ctx.inconclusive(rule, "the merge result is a new object", st.where, "source of `%s` not understood" % render(rhs)[:50])
+
+
 def run(prog, ctx):
+    m0_result_is_fresh(prog, ctx)
     m, helpers = helpers_of_merge(prog)
     ctx.touch(m)
     if not helpers:
